@@ -20,10 +20,13 @@ import (
 	"fmt"
 	"io"
 	"math"
+	"net"
 	"net/http"
+	neturl "net/url"
 	"os"
 	"strconv"
 	"strings"
+	"syscall"
 	"testing"
 	"testing/synctest"
 	"time"
@@ -49,7 +52,8 @@ func TestMain(m *testing.M) {
 // ---------------------------------------------------------------- case description
 
 type behaviour struct {
-	Kind       string `json:"kind"` // S | TO | ER
+	Kind       string `json:"kind"` // S | E (transport error of shape Err) | TO (= E net11) | ER (= E plain)
+	Err        string `json:"err,omitempty"`
 	Code       int    `json:"code,omitempty"`
 	RetryAfter string `json:"retry_after,omitempty"`
 	Chal       int    `json:"chal,omitempty"` // 0 none, 1 Basic, 2 Bearer, 3 unknown scheme
@@ -69,6 +73,7 @@ type scriptCase struct {
 	Body     string      `json:"body"`            // N | R | O | G<k>
 	Manifest string      `json:"manifest"`        // "" | M (auth client) | m (plain client)
 	UnknownLen bool      `json:"unknown_len"`     // leave Request.ContentLength at 0 ("unknown") although the body is not empty
+	Pred     string      `json:"pred"`            // "" = retry.DefaultPredicate; else <code><R|S|F>,...;d<rule>;e<rule>
 	Method   string      `json:"method"`          // HTTP method ("" = PUT)
 	DefaultPolicy bool   `json:"default_policy"`  // use retry.DefaultPolicy (random jitter: oracle only, no model line)
 	PreAuth  bool        `json:"pre_auth"`        // op T only: the stack is the auth client, the request already carries Authorization (no challenge handling)
@@ -78,9 +83,8 @@ type scriptCase struct {
 }
 
 func (b behaviour) outString() string {
-	switch b.Kind {
-	case "TO", "ER":
-		return b.Kind
+	if sh := b.shape(); sh != nil {
+		return fmt.Sprintf("E%s:%s", sh.flags(), sh.name)
 	}
 	return fmt.Sprintf("S%d:%s:%d", b.Code, common.Hex(b.RetryAfter), b.Chal)
 }
@@ -154,23 +158,99 @@ func (c *scriptCase) modelLine() string {
 	if len(opts) > 0 {
 		o = strings.Join(opts, ",")
 	}
-	return fmt.Sprintf("%s %d %d %d %s %d %s %s%s %s %s %s", c.Op, c.MaxRetry, c.Min, c.Max, joinInts(c.Tbl), c.Dflt, cn, c.Manifest, c.Body, d, sc, o)
+	return fmt.Sprintf("%s %s %d %d %d %s %d %s %s%s %s %s %s", c.Op, predToken(c.Pred), c.MaxRetry, c.Min, c.Max, joinInts(c.Tbl), c.Dflt, cn, c.Manifest, c.Body, d, sc, o)
 }
 
 // ---------------------------------------------------------------- scripted server
 
-type timeoutErr struct{}
+// netErr is a net.Error with chosen answers.
+type netErr struct{ timeout, temporary bool }
 
-func (timeoutErr) Error() string   { return "scripted: i/o timeout" }
-func (timeoutErr) Timeout() bool   { return true }
-func (timeoutErr) Temporary() bool { return true }
+func (e netErr) Error() string {
+	return fmt.Sprintf("scripted: net error (timeout=%v temporary=%v)", e.timeout, e.temporary)
+}
+func (e netErr) Timeout() bool   { return e.timeout }
+func (e netErr) Temporary() bool { return e.temporary }
 
-var errOther = errors.New("scripted: connection reset by peer")
+// errShape: one kind of transport error the base transport can return, with the
+// generator's own declaration of what it is: does the VALUE implement net.Error, what do
+// its Timeout()/Temporary() report, and does the chain contain a timeout at all
+// (anyTimeout: retrying it is within the documented rule "timeouts are retried").
+type errShape struct {
+	name                      string
+	err                       error
+	isNet, timeout, temporary bool
+	anyTimeout                bool
+}
+
+func b2s(b bool) string {
+	if b {
+		return "1"
+	}
+	return "0"
+}
+func (s *errShape) flags() string { return b2s(s.isNet) + b2s(s.timeout) + b2s(s.temporary) }
+
+var errShapes = []*errShape{
+	{"plain", errors.New("scripted: connection reset by peer"), false, false, false, false},
+	{"net00", netErr{false, false}, true, false, false, false},
+	{"net01", netErr{false, true}, true, false, true, false},
+	{"net10", netErr{true, false}, true, true, false, true},
+	{"net11", netErr{true, true}, true, true, true, true},
+	{"url-plain", &neturl.Error{Op: "Put", URL: "http://registry.example/", Err: errors.New("scripted: EOF")}, true, false, false, false},
+	{"url-net01", &neturl.Error{Op: "Put", URL: "http://registry.example/", Err: netErr{false, true}}, true, false, true, false},
+	{"url-net10", &neturl.Error{Op: "Put", URL: "http://registry.example/", Err: netErr{true, false}}, true, true, false, true},
+	{"op-emfile", &net.OpError{Op: "dial", Net: "tcp", Err: syscall.EMFILE}, true, false, true, false},
+	{"op-sys-enfile", &net.OpError{Op: "dial", Net: "tcp", Err: os.NewSyscallError("socket", syscall.ENFILE)}, true, false, true, false},
+	{"op-etimedout", &net.OpError{Op: "dial", Net: "tcp", Err: syscall.ETIMEDOUT}, true, true, true, true},
+	{"op-refused", &net.OpError{Op: "dial", Net: "tcp", Err: syscall.ECONNREFUSED}, true, false, false, false},
+	{"url-op-emfile", &neturl.Error{Op: "Put", URL: "http://registry.example/", Err: &net.OpError{Op: "dial", Net: "tcp", Err: syscall.EMFILE}}, true, false, true, false},
+	{"dns-temp", &net.DNSError{Err: "server misbehaving", Name: "registry.example", IsTemporary: true}, true, false, true, false},
+	{"dns-timeout", &net.DNSError{Err: "i/o timeout", Name: "registry.example", IsTimeout: true}, true, true, true, true},
+	{"errno-emfile", syscall.EMFILE, true, false, true, false},
+	{"errno-eintr", syscall.EINTR, true, false, true, false},
+	{"wrap-net11", fmt.Errorf("scripted dial: %w", netErr{true, true}), false, false, false, true},
+	{"wrap-net01", fmt.Errorf("scripted dial: %w", netErr{false, true}), false, false, false, false},
+}
+
+func shapeByName(n string) *errShape {
+	for _, s := range errShapes {
+		if s.name == n {
+			return s
+		}
+	}
+	panic("unknown error shape " + n)
+}
+
+// the declarations above must be what the Go values really report (guards the table)
+func checkShapes() {
+	for _, s := range errShapes {
+		ne, ok := s.err.(net.Error)
+		if ok != s.isNet || ok && (ne.Timeout() != s.timeout || ne.Temporary() != s.temporary) || !ok && (s.timeout || s.temporary) {
+			panic(fmt.Sprintf("error shape %s is declared %s but the value reports net.Error=%v", s.name, s.flags(), ok))
+		}
+	}
+}
+
+func (b behaviour) shape() *errShape {
+	switch b.Kind {
+	case "TO":
+		return shapeByName("net11")
+	case "ER":
+		return shapeByName("plain")
+	case "E":
+		return shapeByName(b.Err)
+	}
+	return nil
+}
+
+var errPred = errors.New("scripted: predicate refuses this answer")
 
 type attemptRec struct {
 	t    int64
 	got  []byte
 	auth string // Authorization header of the request
+	method string
 	beh  behaviour
 }
 
@@ -182,6 +262,7 @@ type server struct {
 	pos    int
 	log    []attemptRec
 	tokens int
+	lastShape *errShape // shape of the error returned for the last scripted request (nil: a response)
 }
 
 func (s *server) RoundTrip(req *http.Request) (*http.Response, error) {
@@ -203,7 +284,7 @@ func (s *server) RoundTrip(req *http.Request) (*http.Response, error) {
 		b = s.script[s.pos]
 	}
 	s.pos++
-	rec := attemptRec{t: int64(time.Since(s.start)), auth: req.Header.Get("Authorization"), beh: b}
+	rec := attemptRec{t: int64(time.Since(s.start)), auth: req.Header.Get("Authorization"), method: req.Method, beh: b}
 	if req.Body != nil {
 		if b.Read < 0 {
 			rec.got, _ = io.ReadAll(req.Body)
@@ -224,13 +305,14 @@ func (s *server) RoundTrip(req *http.Request) (*http.Response, error) {
 		case <-tm.C:
 		}
 	}
-	switch b.Kind {
-	case "TO":
-		return nil, timeoutErr{}
-	case "ER":
-		return nil, errOther
+	s.lastShape = b.shape()
+	if s.lastShape != nil {
+		return nil, s.lastShape.err
 	}
 	resp := mk(b.Code, "")
+	if b.Code == 202 && req.Method == http.MethodPost {
+		resp.Header.Set("Location", "/v2/r/blobs/uploads/session-1") // blob upload session
+	}
 	if b.RetryAfter != "" {
 		resp.Header.Set("Retry-After", b.RetryAfter)
 	}
@@ -258,22 +340,22 @@ type scriptObs struct {
 	panicv any
 }
 
-func classify(resp *http.Response, err error) string {
+func classify(resp *http.Response, err error, last *errShape) string {
 	if err == nil {
 		if resp == nil {
 			return "NILNIL"
 		}
 		return fmt.Sprintf("RESP%d", resp.StatusCode)
 	}
-	var te timeoutErr
 	var er *errcode.ErrorResponse
 	switch {
 	case errors.Is(err, context.Canceled), errors.Is(err, context.DeadlineExceeded):
 		return "ECTX"
-	case errors.As(err, &te):
-		return "ETIMEOUT"
-	case errors.Is(err, errOther):
-		return "EOTHER"
+	case last != nil && errors.Is(err, last.err):
+		// the transport error of the last scripted answer, named by its declared flags
+		return "EERR" + last.flags()
+	case errors.Is(err, errPred):
+		return "EPRED"
 	case errors.As(err, &er):
 		return fmt.Sprintf("RESP%d", er.StatusCode)
 	case strings.Contains(err.Error(), "request body is not rewindable"):
@@ -284,13 +366,61 @@ func classify(resp *http.Response, err error) string {
 	return "E?" + strings.ReplaceAll(err.Error(), " ", "_")
 }
 
+func predToken(p string) string {
+	if p == "" {
+		return "-"
+	}
+	return p
+}
+
+// predRule is the generator's reading of a custom predicate spec: 'R' retry, 'S' stop, 'F' fail.
+func predRule(spec string, b behaviour) byte {
+	parts := strings.Split(spec, ";")
+	if b.shape() != nil {
+		return parts[2][1]
+	}
+	if parts[0] != "" && parts[0] != "-" {
+		for _, e := range strings.Split(parts[0], ",") {
+			if code, _ := strconv.Atoi(e[:len(e)-1]); code == b.Code {
+				return e[len(e)-1]
+			}
+		}
+	}
+	return parts[1][1]
+}
+
+func customPredicate(spec string) retry.Predicate {
+	return func(resp *http.Response, err error) (bool, error) {
+		var b behaviour
+		if err != nil {
+			b = behaviour{Kind: "ER"}
+		} else {
+			b = behaviour{Kind: "S", Code: resp.StatusCode}
+		}
+		switch predRule(spec, b) {
+		case 'R':
+			return true, nil
+		case 'S':
+			return false, nil
+		}
+		if err != nil {
+			return false, err
+		}
+		return false, errPred
+	}
+}
+
 func (c *scriptCase) policy() retry.Policy {
 	if c.DefaultPolicy {
 		return retry.DefaultPolicy
 	}
 	tbl, dflt := c.Tbl, c.Dflt
+	pred := retry.DefaultPredicate
+	if c.Pred != "" {
+		pred = customPredicate(c.Pred)
+	}
 	return &retry.GenericPolicy{
-		Retryable: retry.DefaultPredicate,
+		Retryable: pred,
 		Backoff: func(attempt int, resp *http.Response) time.Duration {
 			if attempt >= 0 && attempt < len(tbl) {
 				return time.Duration(tbl[attempt])
@@ -307,15 +437,14 @@ func execScript(t *testing.T, c *scriptCase) scriptObs {
 	synctest.Test(t, func(t *testing.T) {
 		srv := &server{start: time.Now(), script: c.Script}
 		var authClient *auth.Client
-		if c.Op == "A" || c.Op == "W" || c.PreAuth {
+		if c.Op == "A" || c.Op == "W" || c.Op == "U" || c.PreAuth {
 			authClient = &auth.Client{Cache: auth.NewCache(),
 				Credential: auth.StaticCredential("registry.example", auth.Credential{Username: "u", Password: "p"})}
 		}
 		if c.Op == "W" {
 			// warm the token cache: one challenged GET, so that a Bearer token for the
 			// challenge's scope is cached before the request under test
-			pol := c.policy()
-			authClient.Client = &http.Client{Transport: &retry.Transport{Base: srv, Policy: func() retry.Policy { return pol }}}
+			authClient.Client = &http.Client{Transport: srv} // no retries, no custom predicate during the warm-up
 			srv.script = []behaviour{{Kind: "S", Code: 401, Chal: 2, Read: -1}, {Kind: "S", Code: 200, Read: -1}}
 			wreq, _ := http.NewRequest(http.MethodGet, "http://registry.example/v2/", nil)
 			wresp, werr := authClient.Do(wreq)
@@ -351,6 +480,28 @@ func execScript(t *testing.T, c *scriptCase) scriptObs {
 					obs.res = "PANIC"
 				}
 			}()
+			if c.Op == "U" || c.Op == "u" {
+				// blob push through the Repository: POST (no body), then PUT with the blob
+				repo, err := remote.NewRepository("registry.example/r")
+				if err != nil {
+					panic(err)
+				}
+				repo.PlainHTTP = true
+				repo.Client = client
+				desc := ocispec.Descriptor{MediaType: "application/octet-stream",
+					Digest: digest.Digest("sha256:" + hex.EncodeToString(sha256Sum(data))), Size: int64(len(data))}
+				var rd io.Reader = bytes.NewReader(data)
+				if c.Body == "O" {
+					rd = &oneShot{bytes.NewReader(data)}
+				}
+				err = repo.Blobs().Push(ctx, desc, rd)
+				if err == nil {
+					obs.res = "RESP201"
+				} else {
+					obs.res = classify(nil, err, srv.lastShape)
+				}
+				return
+			}
 			if c.Manifest != "" {
 				repo, err := remote.NewRepository("registry.example/r")
 				if err != nil {
@@ -368,7 +519,7 @@ func execScript(t *testing.T, c *scriptCase) scriptObs {
 				if err == nil {
 					obs.res = "RESP201"
 				} else {
-					obs.res = classify(nil, err)
+					obs.res = classify(nil, err, srv.lastShape)
 				}
 				return
 			}
@@ -411,7 +562,7 @@ func execScript(t *testing.T, c *scriptCase) scriptObs {
 				req.Header.Set("Authorization", "Bearer preset")
 			}
 			resp, err := client.Do(req)
-			obs.res = classify(resp, err)
+			obs.res = classify(resp, err, srv.lastShape)
 			if resp != nil {
 				resp.Body.Close()
 			}
@@ -439,22 +590,25 @@ func showAttempts(recs []attemptRec, data []byte) string {
 	return strings.Join(p, ",")
 }
 
-func retryableTruth(b behaviour) bool {
-	if b.Kind == "TO" {
-		return true
+// retryableTruth: may this answer be followed by another attempt?  DefaultPredicate's documented
+// rule: 408, 429, 5xx (and status 0) and timeouts -- nothing else, in particular not a transport
+// error that is merely Temporary().  A custom predicate: its own rule.
+func retryableTruth(pred string, b behaviour) bool {
+	if pred != "" {
+		return predRule(pred, b) == 'R'
 	}
-	if b.Kind == "ER" {
-		return false
+	if sh := b.shape(); sh != nil {
+		return sh.anyTimeout
 	}
 	return b.Code == 408 || b.Code == 429 || b.Code == 0 || b.Code >= 500
 }
 
-func outcomeTruth(b behaviour) string {
-	switch b.Kind {
-	case "TO":
-		return "ETIMEOUT"
-	case "ER":
-		return "EOTHER"
+func outcomeTruth(pred string, b behaviour) string {
+	if sh := b.shape(); sh != nil {
+		return "EERR" + sh.flags()
+	}
+	if pred != "" && predRule(pred, b) == 'F' {
+		return "EPRED"
 	}
 	return fmt.Sprintf("RESP%d", b.Code)
 }
@@ -475,6 +629,25 @@ func scriptCaseRun(t *testing.T, c *scriptCase) {
 	line := fmt.Sprintf("%s end=%d first=%s", obs.res, obs.end, showAttempts(sends[0], data))
 	if c.Op != "T" {
 		line += " second=" + showAttempts(sends[1], data) + " third=" + showAttempts(sends[2], data)
+	}
+	upload := c.Op == "U" || c.Op == "u"
+	if upload {
+		// sends of a blob push: POST (as sent first / re-sent after a challenge), PUT (same)
+		sends = make([][]attemptRec, 4)
+		for i, r := range obs.log {
+			base := 0
+			if r.method == http.MethodPut {
+				base = 2
+			}
+			k := base
+			if len(sends[base]) > 0 && (len(sends[base+1]) > 0 || r.auth != sends[base][len(sends[base])-1].auth) {
+				k = base + 1
+			}
+			_ = i
+			sends[k] = append(sends[k], r)
+		}
+		line = fmt.Sprintf("%s end=%d post=%s|%s put=%s|%s", obs.res, obs.end, showAttempts(sends[0], nil), showAttempts(sends[1], nil),
+			showAttempts(sends[2], data), showAttempts(sends[3], data))
 	}
 	if c.DefaultPolicy {
 		run.Evaluations++
@@ -508,7 +681,7 @@ func scriptCaseRun(t *testing.T, c *scriptCase) {
 	// O1: what the registry received on every attempt
 	for i, r := range obs.log {
 		want := data
-		if c.Body[0] == 'N' {
+		if c.Body[0] == 'N' || upload && r.method == http.MethodPost {
 			want = nil
 		}
 		if r.beh.Read >= 0 && r.beh.Read < len(want) {
@@ -533,8 +706,8 @@ func scriptCaseRun(t *testing.T, c *scriptCase) {
 			fail("too-many-attempts", fmt.Sprintf("send %d made %d attempts, MaxRetry=%d", si, len(send), c.MaxRetry))
 		}
 		for i := 0; i+1 < len(send); i++ {
-			if !retryableTruth(send[i].beh) {
-				fail("nonretryable-retried", fmt.Sprintf("send %d attempt %d got %s and was followed by another attempt", si, i, outcomeTruth(send[i].beh)))
+			if !retryableTruth(c.Pred, send[i].beh) {
+				fail("nonretryable-retried", fmt.Sprintf("send %d attempt %d got %s and was followed by another attempt", si, i, outcomeTruth(c.Pred, send[i].beh)))
 			}
 			pause := send[i+1].t - (send[i].t + send[i].beh.Lat)
 			if c.Min <= c.Max && (pause < c.Min || pause > c.Max) {
@@ -581,10 +754,28 @@ func scriptCaseRun(t *testing.T, c *scriptCase) {
 	// O7: the result is the last answer (or a rewind error of the auth client)
 	if obs.res != "ECTX" && len(obs.log) > 0 {
 		last := obs.log[len(obs.log)-1]
-		want := outcomeTruth(last.beh)
+		want := outcomeTruth(c.Pred, last.beh)
+		if want == "EPRED" {
+			// the predicate is consulted only while retries are left (attempt < MaxRetry)
+			pos := 0
+			for _, send := range sends {
+				if len(send) > 0 {
+					pos = len(send) - 1
+				}
+			}
+			if pos >= c.MaxRetry {
+				want = fmt.Sprintf("RESP%d", last.beh.Code)
+			}
+		}
 		ok := obs.res == want
 		rewindErr := obs.res == "ENOTREWINDABLE" && c.Body[0] == 'O' || obs.res == "EGETBODY" && c.Body[0] == 'G'
-		if !ok && rewindErr && c.Op != "T" && last.beh.Kind == "S" && last.beh.Code == 401 {
+		if !ok && rewindErr && upload {
+			// blob push: the PUT was challenged (it did not inherit credentials from the POST)
+			if c.Op == "U" && last.beh.Kind == "S" && last.beh.Code == 401 && (last.beh.Chal == 1 || last.beh.Chal == 2) &&
+				len(sends[1]) == 0 && len(sends[2]) > 0 && len(sends[3]) == 0 {
+				ok = true
+			}
+		} else if !ok && rewindErr && c.Op != "T" && last.beh.Kind == "S" && last.beh.Code == 401 {
 			// the auth client answers a challenge it would have to re-send for with the rewind error:
 			// after the first send (Basic/Bearer challenge), or - warm Bearer cache - after the
 			// cached token was refused with any 401
@@ -607,6 +798,7 @@ func scriptCaseRun(t *testing.T, c *scriptCase) {
 type pointCase struct {
 	Op       string `json:"op"`    // B (exponential backoff) | D (table backoff)
 	Which    string `json:"which"` // D = retry.DefaultPolicy, P = parameters below
+	Pred     string `json:"pred"`  // op D only: custom predicate spec ("" = DefaultPredicate)
 	MaxRetry int    `json:"max_retry"`
 	Min      int64  `json:"min"`
 	Max      int64  `json:"max"`
@@ -625,7 +817,7 @@ func (c *pointCase) call() (seen string, d time.Duration, panicv any) {
 	var pol retry.Policy
 	switch {
 	case c.Op == "D":
-		sc := scriptCase{MaxRetry: c.MaxRetry, Min: c.Min, Max: c.Max, Tbl: c.Tbl, Dflt: c.Dflt}
+		sc := scriptCase{MaxRetry: c.MaxRetry, Min: c.Min, Max: c.Max, Tbl: c.Tbl, Dflt: c.Dflt, Pred: c.Pred}
 		pol = sc.policy()
 	case c.Which == "D":
 		pol = retry.DefaultPolicy
@@ -636,12 +828,9 @@ func (c *pointCase) call() (seen string, d time.Duration, panicv any) {
 	}
 	var resp *http.Response
 	var rerr error
-	switch c.Out.Kind {
-	case "TO":
-		rerr = timeoutErr{}
-	case "ER":
-		rerr = errOther
-	default:
+	if sh := c.Out.shape(); sh != nil {
+		rerr = sh.err
+	} else {
 		resp = &http.Response{StatusCode: c.Out.Code, Header: http.Header{}, Body: http.NoBody}
 		if c.Out.RetryAfter != "" {
 			resp.Header.Set("Retry-After", c.Out.RetryAfter)
@@ -666,7 +855,7 @@ func pointCaseRun(c *pointCase) {
 	id := run.NewID()
 	seen, d, pv := c.call()
 	if c.Op == "D" {
-		run.Case(id, fmt.Sprintf("D %d %d %d %s %d %d %s", c.MaxRetry, c.Min, c.Max, joinInts(c.Tbl), c.Dflt, c.Attempt, c.Out.outString()), seen)
+		run.Case(id, fmt.Sprintf("D %s %d %d %d %s %d %d %s", predToken(c.Pred), c.MaxRetry, c.Min, c.Max, joinInts(c.Tbl), c.Dflt, c.Attempt, c.Out.outString()), seen)
 	} else {
 		run.Case(id, fmt.Sprintf("B %s %d %d %d %d %d %d %d %d %d %s %s", c.Which, c.MaxRetry, c.Min, c.Max, c.Base, c.FNum, c.FDen, c.JNum, c.JDen,
 			c.Attempt, c.Out.outString(), seen), "YES")
@@ -698,7 +887,7 @@ func pointCaseRun(c *pointCase) {
 	if c.Attempt >= maxRetry && seen != "STOP" {
 		fail("maxretry-ignored", fmt.Sprintf("attempt %d >= MaxRetry %d", c.Attempt, maxRetry))
 	}
-	if !retryableTruth(c.Out) && seen[0] == 'W' {
+	if !retryableTruth(c.Pred, c.Out) && seen[0] == 'W' {
 		fail("nonretryable-retried", "the answer is not retryable")
 	}
 	if seen[0] == 'W' && min <= max && (int64(d) < min || int64(d) > max) {
@@ -741,10 +930,10 @@ var retryAfterPool = []string{"", "", "", "1", "2", "120", "0", "-5", "abc", "99
 func genBehaviour(r *common.Rand, forAuth bool, evenLat bool) behaviour {
 	b := behaviour{Kind: "S", Read: -1}
 	switch x := r.Intn(20); {
-	case x < 2:
+	case x < 1:
 		b.Kind = "TO"
-	case x < 3:
-		b.Kind = "ER"
+	case x < 4:
+		b.Kind, b.Err = "E", common.Pick(r, errShapes).name
 	case x < 11:
 		b.Code = common.Pick(r, []int{503, 500, 502, 504, 429, 408, 599, 0})
 	case x < 14 && forAuth:
@@ -768,6 +957,23 @@ func genBehaviour(r *common.Rand, forAuth bool, evenLat bool) behaviour {
 	return b
 }
 
+func genPred(r *common.Rand) string {
+	var tbl []string
+	seen := map[int]bool{}
+	for i := r.Intn(5); i > 0; i-- {
+		code := common.Pick(r, statusPool)
+		if !seen[code] {
+			seen[code] = true
+			tbl = append(tbl, fmt.Sprintf("%d%c", code, "RRSF"[r.Intn(4)]))
+		}
+	}
+	t := "-"
+	if len(tbl) > 0 {
+		t = strings.Join(tbl, ",")
+	}
+	return fmt.Sprintf("%s;d%c;e%c", t, "SSSRF"[r.Intn(5)], "RSF"[r.Intn(3)])
+}
+
 func genDuration(r *common.Rand) int64 {
 	switch r.Intn(6) {
 	case 0:
@@ -785,7 +991,7 @@ func genDuration(r *common.Rand) int64 {
 }
 
 func genScript(r *common.Rand, big bool) *scriptCase {
-	c := &scriptCase{Op: common.Pick(r, []string{"T", "T", "A", "A", "W"}), Cancel: -1}
+	c := &scriptCase{Op: common.Pick(r, []string{"T", "T", "T", "A", "A", "A", "W", "W", "U", "U", "u"}), Cancel: -1}
 	c.MaxRetry = common.Pick(r, []int{0, 1, 2, 3, 3, 5, 5, 8, -1})
 	c.Min = genDuration(r)
 	if c.Min < 0 && r.Chance(3, 4) {
@@ -800,6 +1006,18 @@ func genScript(r *common.Rand, big bool) *scriptCase {
 		c.Tbl = append(c.Tbl, genDuration(r))
 	}
 	c.Dflt = genDuration(r)
+	if r.Chance(1, 4) {
+		c.Pred = genPred(r)
+		if c.Op != "T" {
+			// the token fetch of a Bearer challenge goes through the same transport: its 200 must
+			// not be retried (the model treats the fetch as instantaneous); first match wins
+			if strings.HasPrefix(c.Pred, "-;") {
+				c.Pred = "200S" + c.Pred[1:]
+			} else {
+				c.Pred = "200S," + c.Pred
+			}
+		}
+	}
 	c.Body = common.Pick(r, []string{"N", "R", "R", "R", "O", "O", "G"})
 	if c.Body == "G" {
 		c.Body = fmt.Sprintf("G%d", r.Intn(4))
@@ -832,11 +1050,30 @@ func genScript(r *common.Rand, big bool) *scriptCase {
 	}
 	if (c.Body == "R" || c.Body == "O") && !c.UnknownLen && !c.PreAuth && c.Method == "" && r.Chance(1, 3) {
 		// manifest push through the Repository: M = auth client, m = plain retrying client
-		c.Manifest = map[string]string{"A": "M", "T": "m", "W": ""}[c.Op]
+		c.Manifest = map[string]string{"A": "M", "T": "m"}[c.Op]
 	}
 	ns := r.Intn(2*(maxInt(c.MaxRetry, 0)+1) + 3)
 	for i := 0; i < ns; i++ {
 		c.Script = append(c.Script, genBehaviour(r, c.Op != "T", true))
+	}
+	if c.Op == "U" || c.Op == "u" {
+		// blob push: some answers for the POST, its 202, some answers for the PUT, its 201
+		if c.Body != "R" && c.Body != "O" {
+			c.Body = common.Pick(r, []string{"R", "O"})
+			if c.Data == "" && c.BigLen == 0 {
+				c.Data = "00010203"
+			}
+		}
+		c.UnknownLen, c.Method, c.PreAuth, c.Manifest = false, "", false, ""
+		var sc []behaviour
+		for i := r.Intn(3); i > 0; i-- {
+			sc = append(sc, genBehaviour(r, c.Op == "U", true))
+		}
+		sc = append(sc, behaviour{Kind: "S", Code: 202, Read: -1, Lat: int64(r.Intn(20)) * 2})
+		for i := r.Intn(4); i > 0; i-- {
+			sc = append(sc, genBehaviour(r, c.Op == "U", true))
+		}
+		c.Script = append(sc, behaviour{Kind: "S", Code: 201, Read: -1})
 	}
 	if c.Op == "W" && len(c.Script) >= 2 {
 		// exercise the cached-token re-send and the fresh-token third send
@@ -876,7 +1113,7 @@ func genScript(r *common.Rand, big bool) *scriptCase {
 				}
 				span += d
 			}
-			if !retryableTruth(b) && !(b.Code == 401 && c.Op != "T") {
+			if !retryableTruth(c.Pred, b) && !(b.Code == 401 && c.Op != "T") {
 				break
 			}
 		}
@@ -900,6 +1137,9 @@ func genPoint(r *common.Rand) *pointCase {
 	c := &pointCase{Op: "B", Which: "P", FDen: 1, JDen: 1}
 	if r.Chance(1, 6) {
 		c.Op = "D"
+		if r.Chance(1, 2) {
+			c.Pred = genPred(r)
+		}
 	} else if r.Chance(1, 6) {
 		c.Which = "D"
 	}
@@ -943,7 +1183,7 @@ func genPoint(r *common.Rand) *pointCase {
 }
 
 var enumAlphabet = []behaviour{
-	{Kind: "S", Code: 503, Read: -1}, {Kind: "S", Code: 429, RetryAfter: "1", Read: 2, Lat: 10}, {Kind: "TO", Read: -1, Lat: 6}, {Kind: "ER", Read: 1},
+	{Kind: "S", Code: 503, Read: -1}, {Kind: "S", Code: 429, RetryAfter: "1", Read: 2, Lat: 10}, {Kind: "TO", Read: -1, Lat: 6}, {Kind: "ER", Read: 1}, {Kind: "E", Err: "op-emfile", Read: -1}, {Kind: "E", Err: "url-net10", Read: 2},
 	{Kind: "S", Code: 401, Chal: 1, Read: -1}, {Kind: "S", Code: 401, Chal: 2, Read: 3, Lat: 4}, {Kind: "S", Code: 200, Read: -1}, {Kind: "S", Code: 404, Read: 0},
 }
 
@@ -991,6 +1231,34 @@ func enumScripts(t *testing.T, maxLen int, allCancel bool) {
 	rec(nil)
 }
 
+var uploadAlphabet = []behaviour{
+	{Kind: "S", Code: 503, Read: 2}, {Kind: "S", Code: 401, Chal: 2, Read: -1}, {Kind: "S", Code: 401, Chal: 1, Read: 1},
+	{Kind: "S", Code: 202, Read: -1, Lat: 4}, {Kind: "S", Code: 201, Read: -1}, {Kind: "TO", Read: -1}, {Kind: "S", Code: 404, Read: 0},
+}
+
+// enumUploads: every behaviour sequence up to maxLen against a blob push, both body kinds, both clients
+func enumUploads(t *testing.T, maxLen int) {
+	var rec func(prefix []behaviour)
+	rec = func(prefix []behaviour) {
+		if len(prefix) > 0 {
+			for _, op := range []string{"U", "u"} {
+				for _, body := range []string{"R", "O"} {
+					scriptCaseRun(t, &scriptCase{Op: op, MaxRetry: 2, Min: 100, Max: 1000, Tbl: []int64{50, 5000}, Dflt: 300, Cancel: -1,
+						Body: body, Data: "0102030405", Script: append([]behaviour(nil), prefix...)})
+					run.Count("enumerated_uploads")
+				}
+			}
+		}
+		if len(prefix) == maxLen {
+			return
+		}
+		for _, b := range uploadAlphabet {
+			rec(append(prefix, b))
+		}
+	}
+	rec(nil)
+}
+
 // ---------------------------------------------------------------- entry point
 
 // replayCases re-runs the "cases" array of a replay/corpus file.  (Not via
@@ -1014,7 +1282,7 @@ func replayCases(t *testing.T) {
 			continue
 		}
 		switch head.Op {
-		case "T", "A", "W":
+		case "T", "A", "W", "U", "u":
 			var c scriptCase
 			if err := json.Unmarshal(js, &c); err != nil {
 				panic(err)
@@ -1037,6 +1305,7 @@ func replayCases(t *testing.T) {
 }
 
 func TestVerif(t *testing.T) {
+	checkShapes()
 	run.Rule = "a script counts when it led to more than one attempt (a retry or a re-send after a challenge); a policy point counts when the decision is not the trivial STOP"
 	if run.Replay != "" {
 		replayCases(t)
@@ -1048,6 +1317,22 @@ func TestVerif(t *testing.T) {
 		for _, att := range []int{0, 1, 4, 40, 70} {
 			pointCaseRun(&pointCase{Op: "B", Which: "P", MaxRetry: 100, Min: 0, Max: math.MaxInt64, Base: 250_000_000, FNum: 2, FDen: 1,
 				JNum: j[0], JDen: j[1], Attempt: att, Out: behaviour{Kind: "S", Code: 503, Read: -1}})
+		}
+	}
+	// every error shape against the default policy, the default predicate with a table backoff,
+	// and the exponential backoff
+	for _, sh := range errShapes {
+		o := behaviour{Kind: "E", Err: sh.name, Read: -1}
+		pointCaseRun(&pointCase{Op: "B", Which: "D", FDen: 1, JDen: 1, Attempt: 0, Out: o})
+		pointCaseRun(&pointCase{Op: "D", Which: "P", FDen: 1, JDen: 1, MaxRetry: 3, Min: 10, Max: 1000, Dflt: 100, Attempt: 1, Out: o})
+		pointCaseRun(&pointCase{Op: "B", Which: "P", MaxRetry: 3, Min: 0, Max: math.MaxInt64, Base: 250_000_000, FNum: 2, FDen: 1, JNum: 1, JDen: 10, Attempt: 2, Out: o})
+		for _, body := range []string{"N", "R", "O"} {
+			c := &scriptCase{Op: "T", MaxRetry: 2, Min: 100, Max: 1000, Dflt: 300, Cancel: -1, Body: body,
+				Script: []behaviour{{Kind: "E", Err: sh.name, Read: -1}, {Kind: "S", Code: 200, Read: -1}}}
+			if body != "N" {
+				c.Data = "0102030405"
+			}
+			scriptCaseRun(t, c)
 		}
 	}
 	for att := 0; att < 7; att++ {
@@ -1063,11 +1348,12 @@ func TestVerif(t *testing.T) {
 	if dmr, dmin, dmax, ok := defaultNumbers(); ok {
 		for i := 0; i < run.Scale(300, 20000); i++ {
 			c := genScript(r, false)
-			c.DefaultPolicy, c.MaxRetry, c.Min, c.Max, c.Tbl, c.Dflt = true, dmr, dmin, dmax, nil, 0
+			c.DefaultPolicy, c.MaxRetry, c.Min, c.Max, c.Tbl, c.Dflt, c.Pred = true, dmr, dmin, dmax, nil, 0, ""
 			c.Cancel, c.Deadline = -1, false
 			scriptCaseRun(t, c)
 		}
 	}
+	enumUploads(t, run.Scale(4, 6))
 	nScripts := run.Scale(2500, 500000)
 	nPoints := run.Scale(20000, 4000000)
 	nBig := run.Scale(6, 200)
